@@ -126,3 +126,24 @@ Theorem comment_loss_excuses_are_narrow :
   prop_ok (del_case [(0, "// 2 above type"); (14, "// 6 end of file")]) = false /\
   prop_ok (del_case [(0, "// 2 above type"); (3, "// 3 own line in struct")]) = false.
 Proof. vm_compute. repeat split; reflexivity. Qed.
+
+(* seeded change C20-5 (StructDataType.Format appends the tag of a member with an inline struct type
+   by WriteText, behind whatever ends the type's text):
+     A { <newline> X int <newline> } // c <newline> `json:"a"`   ->   ... } // c `json:"a"`
+   the tag has become part of the comment: the text parses, the member has lost its tag *)
+Definition seed5_api (tag : option string) : api :=
+  [ SType ("T", false, DStruct [ (["A"], DStruct [ (["X"], DBase "int", None) ], tag) ]) ].
+Definition seed5_case (ftoks : list token) (fast : api) (fc : list cmt) : case :=
+  mkCase None None true (print (seed5_api (Some "`json:""a""`"))) [(8, "// c")] [true]
+         (Some (seed5_api (Some "`json:""a""`"))) OOk OOk ftoks fc (Some fast) true true false [].
+Theorem seed5_tag_swallowed_refuted :
+  agrees (seed5_case (print (seed5_api None)) (seed5_api None) [(8, "// c `json:""a""`")]) = true /\
+  prop_ok (seed5_case (print (seed5_api None)) (seed5_api None) [(8, "// c `json:""a""`")]) = false.
+Proof. vm_compute. split; reflexivity. Qed.
+
+(* what the pinned tree prints: the comment stays behind the brace, the tag on the next line (one
+   of the two free breaks of the layout comparison) *)
+Example seed5_pinned_tree_passes :
+  prop_ok (seed5_case (map (fun t => if is KRaw t then set_nl true t else t) (print (seed5_api (Some "`json:""a""`"))))
+                      (seed5_api (Some "`json:""a""`")) [(8, "// c")]) = true.
+Proof. vm_compute. reflexivity. Qed.
